@@ -127,6 +127,8 @@ class Inventory:
                             k = const_int(v)
                             if (k is not None and k < (1 << 32)) or _is_count(du, v):
                                 s.status, s.reason = "exempt", "allocation size is a constant or an in-memory length"
+                            elif _is_count_arith(du, v):
+                                s.status, s.reason = "exempt", "allocation size is small-constant arithmetic over in-memory lengths (inputs smaller than 2 GiB: stated assumption)"
                         out.append(s)
                         continue
                     if doc_panics or name in INDEX_CALLS:
@@ -309,7 +311,46 @@ class Inventory:
             if k == 0 and tgt is not None and self._split_collect(du, tgt):
                 s.status, s.reason = "guarded", "str::split yields at least one item, so element 0 of the collected vector exists"
                 return
+            from .numeric import chain_fresh
+            if tgt is not None and chain_fresh(du, g.cfg, args[1], bid) and self._index_in_bounds(fn, du, g, du.val_operand(args[1]), tgt, bid):
+                s.status, s.reason = "guarded", "index / range bounds follow from dominating comparisons on unmodified operands (start <= end <= len)"
+                return
             s.extra["index"] = repr(idx)[:120]
+        CONST_ARG = {"to_digit": (1, lambda k: 2 <= k <= 36), "from_digit": (1, lambda k: 2 <= k <= 36), "step_by": (1, lambda k: k >= 1)}
+        last = name.rsplit("::", 1)[-1]
+        if last in CONST_ARG and len(args) > CONST_ARG[last][0]:
+            k = const_int(strip_casts(du.val_operand(args[CONST_ARG[last][0]])))
+            if k is not None and CONST_ARG[last][1](k):
+                s.status, s.reason = "guarded", "the documented panic condition concerns a constant argument (%d) that satisfies the requirement" % k
+                return
+        if re.fullmatch(r"core::slice::<impl \[T\]>::(windows|chunks|chunks_exact|rchunks|chunks_mut)", name) and len(args) == 2:
+            from .numeric import numeric_of
+            lo = numeric_of(fn, du, g).lower_bound(du.val_operand(args[1]), bid)
+            if lo is not None and lo >= 1:
+                s.status, s.reason = "guarded", "window/chunk size >= 1 follows from its definition / dominating comparisons"
+                return
+
+    def _index_in_bounds(self, fn, du, g, idx, tgt, bid):
+        from .numeric import numeric_of
+        num = numeric_of(fn, du, g)
+        if idx[0] == "aggregate" and idx[2] and idx[2].startswith("std::ops::Range"):
+            kind = idx[2].split("<")[0]
+            ops = idx[3]
+            if kind == "std::ops::Range" and len(ops) == 2:
+                return num.prove_le(ops[0], ops[1], 0, bid) and num.prove_le_len(ops[1], tgt, 0, bid)
+            if kind == "std::ops::RangeTo" and len(ops) == 1:
+                return num.prove_le_len(ops[0], tgt, 0, bid)
+            if kind == "std::ops::RangeFrom" and len(ops) == 1:
+                return num.prove_le_len(ops[0], tgt, 0, bid)
+            if kind == "std::ops::RangeToInclusive" and len(ops) == 1:
+                return num.prove_le_len(ops[0], tgt, -1, bid)
+            return False
+        if idx[0] == "aggregate":
+            return False
+        from .ints import val_ty
+        if val_ty(fn, idx) in ("usize", None) and idx[0] != "const":
+            return num.prove_le_len(idx, tgt, -1, bid)
+        return False
 
     def _split_collect(self, du, place):
         c = du.canon(place)
@@ -343,13 +384,18 @@ class Inventory:
     def _classify_assert(self, s, fn, du, g, t, bid):
         kind = t["kind"]
         ops = t.get("ops", [])
+        from .numeric import chain_fresh
+        # proofs from comparisons need the operands' defining expressions to still mean the same at this point
+        fresh = all(chain_fresh(du, g.cfg, o, bid) for o in list(ops) + ([t["cond"]] if t.get("cond") else []))
         if kind.startswith("Overflow(Sh") and len(ops) == 2:
             k = const_int(strip_casts(du.val_operand(ops[1])))
             if k is not None and 0 <= k < 8:
                 s.status, s.reason = "guarded", "constant shift amount %d below every integer width" % k
                 return
-        if kind in ("DivisionByZero", "RemainderByZero") and ops:
-            k = const_int(strip_casts(du.val_operand(ops[0])))
+        if kind in ("DivisionByZero", "RemainderByZero"):
+            # the assert's message operand is the DIVIDEND; the divisor is the operand of the `== 0` condition
+            dv = self._divisor(du, t)
+            k = const_int(strip_casts(dv)) if dv is not None else None
             if k is not None and k != 0:
                 s.status, s.reason = "guarded", "non-zero constant divisor %d" % k
                 return
@@ -358,8 +404,18 @@ class Inventory:
             if why:
                 s.status, s.reason = "exempt", why
                 return
+        if kind == "Overflow(Sub)" and len(ops) == 2 and (_op_ty(fn, ops[0]) or _op_ty(fn, ops[1])) in ("i64", "isize", "i128"):
+            # a signed >= 64-bit counter minus a small constant / byte count: 2^63 steps would be needed to reach the type's minimum
+            why = self._add_bounded(fn, du, t, [ops[0], ops[1]], only_first=True)
+            if why:
+                s.status, s.reason = "exempt", why.replace("growing", "changing")
+                return
+        if not fresh:
+            s.reason = "an operand was computed from a local that is reassigned before this point: comparisons made in between do not apply to it"
+            return
         if kind == "Overflow(Sub)" and len(ops) == 2:
-            a, b = strip_casts(du.val_operand(ops[0])), strip_casts(du.val_operand(ops[1]))
+            from .ints import strip_widening
+            a, b = strip_widening(fn, du.val_operand(ops[0])), strip_widening(fn, du.val_operand(ops[1]))
             ok, why = g.order_guarded(b, a, bid)
             if ok:
                 s.status, s.reason = "guarded", "dominated by a comparison establishing subtrahend <= minuend"
@@ -378,6 +434,64 @@ class Inventory:
             if kl is not None and ki is not None and ki < kl:
                 s.status, s.reason = "guarded", "constant index %d into array of %d" % (ki, kl)
                 return
+        self._classify_numeric(s, fn, du, g, t, bid, kind, ops)
+
+    def _divisor(self, du, t):
+        c = t.get("cond")
+        if c is None:
+            return None
+        v = du.val_operand(c)
+        if v[0] == "binop" and v[1] == "Eq":
+            if const_int(strip_casts(v[3])) == 0:
+                return v[2]
+            if const_int(strip_casts(v[2])) == 0:
+                return v[3]
+        return None
+
+    def _classify_numeric(self, s, fn, du, g, t, bid, kind, ops):
+        """A10: difference constraints from dominating comparisons and interval evaluation of the operand expressions"""
+        from .numeric import numeric_of
+        from .ints import ty_range
+        num = numeric_of(fn, du, g)
+        vals = [du.val_operand(o) for o in ops]
+        if kind == "BoundsCheck" and len(vals) == 2:
+            if num.prove_le(vals[1], vals[0], -1, bid):
+                s.status, s.reason = "guarded", "index < length follows from dominating comparisons on unmodified operands"
+            return
+        if kind in ("DivisionByZero", "RemainderByZero"):
+            dv = self._divisor(du, t)
+            if dv is None:
+                return
+            lo = num.lower_bound(dv, bid)
+            if lo is not None and lo >= 1:
+                s.status, s.reason = "guarded", "divisor >= %d follows from its definition / dominating comparisons" % lo
+            return
+        m = re.fullmatch(r"Overflow\((Add|Sub|Mul)\)", kind)
+        if m and len(vals) == 2:
+            ty = None
+            for o in ops:
+                ty = ty or _op_ty(fn, o)
+            tr = ty_range(ty or "")
+            if tr is None:
+                return
+            op = m.group(1)
+            if op == "Sub" and tr[0] == 0 and num.prove_le(vals[1], vals[0], 0, bid):
+                s.status, s.reason = "guarded", "subtrahend <= minuend follows from dominating comparisons on unmodified operands"
+                return
+            la, ha = num.lower_bound(vals[0], bid), num.upper_bound(vals[0], bid)
+            lb, hb = num.lower_bound(vals[1], bid), num.upper_bound(vals[1], bid)
+            if None in (la, ha, lb, hb):
+                return
+            if op == "Add":
+                lo, hi = la + lb, ha + hb
+            elif op == "Sub":
+                lo, hi = la - hb, ha - lb
+            else:
+                if la < 0 or lb < 0:
+                    return
+                lo, hi = la * lb, ha * hb
+            if tr[0] <= lo and hi <= tr[1]:
+                s.status, s.reason = "guarded", "operands bounded by their types, producers and dominating comparisons: result in [%d, %d] fits %s" % (lo, hi, ty)
 
 
 WIDE = ("i128", "u128")
@@ -393,7 +507,7 @@ def _op_ty(fn, o):
     return None
 
 
-def _add_bounded(self, fn, du, t, ops):
+def _add_bounded(self, fn, du, t, ops, only_first=False):
     """Overflow(Add) that cannot happen within any feasible run: (i) 128-bit accumulation of zero-extended <=64-bit values;
     (ii) a >=64-bit counter whose every definition is a constant or itself plus a small constant / an in-memory byte count."""
     a, b = ops
@@ -417,10 +531,11 @@ def _add_bounded(self, fn, du, t, ops):
                 if (k is not None and 0 <= k <= 1) or _is_count(du, other):
                     return "32-bit counter advanced by at most one per input byte (or by a read count): cannot wrap for inputs smaller than 2 GiB (stated assumption)"
     if ty in W64:
-        for x, other in ((a, vb), (b, va)):
+        for x, other in (((a, vb),) if only_first else ((a, vb), (b, va))):
             if x.get("k") not in ("copy", "move"):
                 continue
-            cx = du.canon(place_key(x))
+            root = _chain_root(du, x, 0)
+            cx = (root, ()) if root is not None else du.canon(place_key(x))
             if not cx[1] and _is_counter(du, cx[0]):
                 k = const_int(strip_casts(other))
                 if k is not None and 0 <= k <= (1 << 32):
@@ -438,6 +553,32 @@ def _is_count(du, v, depth=0):
             return True
         if n.endswith("::unwrap") and v[2]:
             return _is_count_result(du, v[2][0])
+    return False
+
+
+def _is_count_arith(du, v, depth=0):
+    """+ - * / with constants <= 1024 over in-memory lengths / byte counts"""
+    v = strip_casts(v)
+    if depth > 6:
+        return False
+    k = const_int(v)
+    if k is not None:
+        return 0 <= k <= (1 << 32)
+    if _is_count(du, v):
+        return True
+    if v[0] == "binop":
+        op = v[1].replace("WithOverflow", "").replace("Unchecked", "")
+        a, b = strip_casts(v[2]), strip_casts(v[3])
+        if op in ("Add", "Sub"):
+            return _is_count_arith(du, a, depth + 1) and _is_count_arith(du, b, depth + 1)
+        if op in ("Mul", "Div", "Rem", "Shr"):
+            ka, kb = const_int(a), const_int(b)
+            if kb is not None and 0 < kb <= 1024:
+                return _is_count_arith(du, a, depth + 1)
+            if op == "Mul" and ka is not None and 0 < ka <= 1024:
+                return _is_count_arith(du, b, depth + 1)
+    if v[0] == "call" and v[1] and any(v[1] == f or v[1].startswith(f + "::<") for f in ("std::cmp::min", "core::cmp::min", "std::cmp::Ord::min")) and len(v[2]) == 2:
+        return _is_count_arith(du, v[2][0], depth + 1) or _is_count_arith(du, v[2][1], depth + 1)
     return False
 
 
@@ -471,14 +612,28 @@ def _is_counter(du, l):
             seen_const = True
             continue
         if o.get("k") in ("copy", "move") and len(o["p"]) == 1 and isinstance(o["p"][0], dict) and o["p"][0].get("f") == 0:
-            dd = du.unique_def(o["l"])
-            if dd and dd[0] == "assign" and dd[3]["k"] == "binop" and (dd[3]["op"].startswith("Add") or dd[3]["op"].startswith("Sub")):
-                x = dd[3]["ops"][0]
-                y = dd[3]["ops"][1]
-                if any(z.get("k") in ("copy", "move") and du.canon(place_key(z)) == (l, ()) for z in (x, y)):
-                    continue
+            if _chain_root(du, o, 0) == l:
+                continue
         return False
     return seen_const
+
+
+def _chain_root(du, o, depth):
+    """operand `(_t.0)` with _t = x (+|-) y: the local at the bottom of the chain of x's (l itself for `l`, for `(l + a).0`, for `((l + a) - b).0` ...)"""
+    if depth > 4 or o.get("k") not in ("copy", "move"):
+        return None
+    if not o["p"]:
+        return du.canon(place_key(o))[0] if not du.canon(place_key(o))[1] else None
+    if len(o["p"]) == 1 and isinstance(o["p"][0], dict) and o["p"][0].get("f") == 0:
+        dd = du.unique_def(o["l"])
+        if dd and dd[0] == "assign" and dd[3]["k"] == "binop" and (dd[3]["op"].startswith("Add") or dd[3]["op"].startswith("Sub")):
+            x, y = dd[3]["ops"]
+            r = _chain_root(du, x, depth + 1)
+            if r is not None and (dd[3]["op"].startswith("Add") or True):
+                return r
+            if dd[3]["op"].startswith("Add"):
+                return _chain_root(du, y, depth + 1)
+    return None
 
 
 Inventory._add_bounded = _add_bounded
